@@ -8,16 +8,47 @@
  *   a pipelined DATA command).  A plain integer is the old <chunk>.  consumed counts from the end of the skipped prefix. */
 #include "hcommon.h"
 #include <errno.h>
-#define _exit(x) h_exit(x)
-#define main qmail_smtpd_main
-#include "qmail-smtpd.c"
-#undef main
-#undef _exit
+#include "substdio.h"
+#include "qmail.h"
+
+/* How the program is run (round 2, see notes/C05.md "Tie"): qmail-smtpd.c is NOT #included and the harness initialises
+ * nothing of `ssin`.  checks/c05.py builds the program as an object of its own (nqlib prog_object: qmail-smtpd.c compiled
+ * by the scratch tree's ./compile with main renamed, partially linked with everything the Makefile links qmail-smtpd with
+ * except qmail.o / timeoutread.o / timeoutwrite.o, its writable data in the sections pd_qs / pdl_qs / pdr_qs / pb_qs).
+ * Before EVERY case those sections are restored to their load-time image: `ssin` is the program's static initialiser
+ * (its own `saferead`, descriptor, `ssinbuf` and size), `ssout`, `bytestooverflow`, `qqt` and every other static are
+ * as in a freshly exec'ed qmail-smtpd - each case is a run of its own, so a failing case also fails when replayed alone.
+ * _exit() and read() are interposed at link level (-Wl,--wrap): a read of descriptor 0 that does not go through
+ * timeoutread is served from the same scripted stream; other descriptors fail with EBADF. */
+extern substdio ssin;
+extern void blast(int *);
+
+extern char __start_pd_qs[] __attribute__((weak)), __stop_pd_qs[] __attribute__((weak));
+extern char __start_pdl_qs[] __attribute__((weak)), __stop_pdl_qs[] __attribute__((weak));
+extern char __start_pdr_qs[] __attribute__((weak)), __stop_pdr_qs[] __attribute__((weak));
+extern char __start_pb_qs[] __attribute__((weak)), __stop_pb_qs[] __attribute__((weak));
+static struct { char *a, *b, *snap; } greg[4]; static int ngreg;
+__attribute__((no_sanitize("address", "undefined"))) static void rawcopy(char *d, const char *s, size_t n) {
+  size_t i = 0;
+  if ((((uintptr_t)d | (uintptr_t)s) & 7) == 0) for (; i + 8 <= n; i += 8) *(volatile uint64_t *)(d + i) = *(const uint64_t *)(s + i);
+  for (; i < n; i++) ((volatile char *)d)[i] = s[i];
+}
+static void greg_add(char *a, char *b) {
+  if (!a || !b || b <= a) return;
+  size_t n = b - a;
+  greg[ngreg].a = a; greg[ngreg].b = b; greg[ngreg].snap = malloc(n); rawcopy(greg[ngreg].snap, a, n); ngreg++;
+}
+static void prog_snapshot(void) {
+  greg_add(__start_pd_qs, __stop_pd_qs); greg_add(__start_pdl_qs, __stop_pdl_qs);
+  greg_add(__start_pdr_qs, __stop_pdr_qs); greg_add(__start_pb_qs, __stop_pb_qs);
+  if (ngreg < 2) { fprintf(stderr, "c05_blast: program data sections not found\n"); exit(3); }
+}
+static void prog_restore(void) { for (int i = 0; i < ngreg; i++) rawcopy(greg[i].a, greg[i].snap, greg[i].b - greg[i].a); }
 
 static const unsigned char *in_p; static size_t in_n, in_pos;
 static hbuf stored, replyb;
 #define MAXPLAN 64
-static int plan[MAXPLAN], plan_n; static long plan_k, in_reads; static int plan_skip, in_failed;
+static int plan[MAXPLAN], plan_n; static long plan_k, in_reads; static int plan_skip, in_failed, in_case;
 
 static int parse_plan(const char *t) {
   plan_n = 0; plan_skip = 0;
@@ -34,6 +65,7 @@ static int parse_plan(const char *t) {
 
 /* replaces timeoutread.o: serve the scripted stream according to the plan; 0 at its end */
 ssize_t timeoutread(int t, int fd, char *buf, size_t len) {
+  if (fd != 0) { errno = EBADF; return -1; }                 /* the SMTP connection is descriptor 0 */
   int c = plan[plan_k++ % plan_n];
   in_reads++;
   if (c < 0) { in_failed = 1; errno = EIO; return -1; }
@@ -42,6 +74,13 @@ ssize_t timeoutread(int t, int fd, char *buf, size_t len) {
   if (c > 0 && k > (size_t)c) k = c;
   memcpy(buf, in_p + in_pos, k); in_pos += k;
   return k;
+}
+ssize_t __real_read(int fd, void *buf, size_t len);
+ssize_t __wrap_read(int fd, void *buf, size_t len) { return in_case ? timeoutread(0, fd, buf, len) : __real_read(fd, buf, len); }
+void __real__exit(int c) __attribute__((noreturn));
+void __wrap__exit(int c) {
+  if (in_case) { h_exitcode = c; longjmp(h_jb, 1); }
+  __real__exit(c);
 }
 /* replaces timeoutwrite.o: capture replies */
 ssize_t timeoutwrite(int t, int fd, const void *buf, size_t len) { hbuf_add(&replyb, buf, len); return len; }
@@ -58,19 +97,17 @@ unsigned long qmail_qp(struct qmail *qq) { return 1; }
 static void onep(const unsigned char *m, size_t n, const char *tok) {
   int hops = -1;
   if (!parse_plan(tok)) return;
-  ssin.p = 0; ssin.n = sizeof ssinbuf;
-  ssout.p = 0;
+  prog_restore();                                /* a fresh qmail-smtpd: ssin, ssinbuf, ssout, bytestooverflow, qqt, every static */
   in_p = m; in_n = n; in_pos = 0; plan_k = 0; in_reads = 0; in_failed = 0;
   hbuf_reset(&stored); hbuf_reset(&replyb);
-  bytestooverflow = 0; qqt.flagerr = 0;
   char st = 'A';
-  h_exit_armed = 1;
+  in_case = 1;
   if (setjmp(h_jb) == 0) {
     static char skipbuf[4096];
     long left = plan_skip;
     while (left > 0) {                      /* the pipelined prefix: saferead exits at end of input / on a failing read */
       ssize_t r = substdio_get(&ssin, skipbuf, left > (long)sizeof skipbuf ? sizeof skipbuf : (size_t)left);
-      if (r <= 0) h_exit(1);
+      if (r <= 0) __wrap__exit(1);
       left -= r;
     }
     blast(&hops);
@@ -80,7 +117,7 @@ static void onep(const unsigned char *m, size_t n, const char *tok) {
     else if (replyb.n == 0 && (in_pos == in_n || in_failed)) st = 'E';
     else st = 'T';
   }
-  h_exit_armed = 0;
+  in_case = 0;
   long consumed = (long)in_pos - ssin.p - plan_skip;
   fprintf(h_out, "%s ", tok); h_hex(m, n); fprintf(h_out, " %c ", st); h_hex(stored.p, stored.n);
   fprintf(h_out, " %ld %d %d %d %ld\n", st == 'A' ? consumed : -1, st == 'A' ? hops : -1,
@@ -101,6 +138,7 @@ static const char *hl[] = { "Received: from x", "received", "RECEIVE", "rEcEiVeD
 
 int main(int argc, char **argv) {
   h_init_out();
+  prog_snapshot();
   if (argc > 1 && !strcmp(argv[1], "-")) {
     static char line[400000], hx[400000]; static unsigned char b[200000];
     while (fgets(line, sizeof line, stdin)) {
